@@ -47,3 +47,123 @@ func ZZ_C14_req() {
 	rt.Assert(m.Type() == wantType, "type")
 	rt.Reach("end")
 }
+
+func zzReq(kind int, sid uint16, sys []byte) HSMSMessage {
+	switch kind {
+	case 0:
+		return NewHSMSMessageSelectReq(sid, sys)
+	case 1:
+		return NewHSMSMessageDeselectReq(sid, sys)
+	case 2:
+		return NewHSMSMessageLinktestReq(sys)
+	case 3:
+		return NewHSMSMessageRejectReq(sid, rt.Byte("rq_ptype"), rt.Byte("rq_stype"), sys, rt.Byte("rq_reason"))
+	case 4:
+		return NewHSMSMessageSeparateReq(sid, sys)
+	case 5:
+		return NewHSMSControlMessage(rt.Bytes("rq_hdr", 10))
+	}
+	return NewHSMSDataMessage("", 1, 1, 0, "H->E", NewEmptyItemNode(), int(sid), sys)
+}
+
+// ZZ_C14_rsp: response constructors echo session id and system bytes of the request they
+// answer and refuse (panic) a request of any other kind.  rsp: 0 select, 1 deselect, 2 linktest.
+func ZZ_C14_rsp() {
+	rsp := rt.Param("rsp")
+	reqKind := rt.Param("req") // 0..4 request constructors, 5 generic control message, 6 data message
+	sid := rt.Uint16("sid")
+	sys := rt.Bytes("sys", 4)
+	status := rt.Byte("status")
+	req := zzReq(reqKind, sid, sys)
+	reqBytes := req.ToBytes()
+	var m HSMSMessage
+	panicked := rt.Try(func() {
+		switch rsp {
+		case 0:
+			m = NewHSMSMessageSelectRsp(req, status)
+		case 1:
+			m = NewHSMSMessageDeselectRsp(req, status)
+		case 2:
+			m = NewHSMSMessageLinktestRsp(req)
+		}
+	})
+	wantType := []string{"select.req", "deselect.req", "linktest.req"}[rsp]
+	right := req.Type() == wantType
+	if !right {
+		rt.Assert(panicked, "rsp:refuses-wrong-kind")
+		rt.Reach("end")
+		return
+	}
+	rt.Assert(!panicked, "rsp:accepts-right-kind")
+	b := m.ToBytes()
+	rt.Assert(len(b) == 14, "rsp:len14")
+	rt.Assert(b[0] == 0 && b[1] == 0 && b[2] == 0 && b[3] == 10, "rsp:length-field")
+	if rsp == 2 {
+		rt.Assert(b[4] == 0xFF && b[5] == 0xFF, "rsp:linktest-session-ffff")
+		rt.Assert(b[7] == 0, "rsp:byte3")
+	} else {
+		rt.Assert(b[4] == reqBytes[4] && b[5] == reqBytes[5], "rsp:echo-session")
+		rt.Assert(b[7] == status, "rsp:status-byte3")
+	}
+	rt.Assert(b[6] == 0, "rsp:byte2")
+	rt.Assert(b[8] == 0, "rsp:ptype0")
+	rt.Assert(b[9] == []byte{2, 4, 6}[rsp], "rsp:stype")
+	rt.Assert(b[10] == reqBytes[10] && b[11] == reqBytes[11] && b[12] == reqBytes[12] && b[13] == reqBytes[13], "rsp:echo-system-bytes")
+	rt.Assert(m.Type() == []string{"select.rsp", "deselect.rsp", "linktest.rsp"}[rsp], "rsp:type")
+	rt.Reach("end")
+}
+
+// ZZ_C14_type: Type() is a total function of (PType, SType): all 65536 pairs.
+func ZZ_C14_type() {
+	hdr := rt.Bytes("hdr", 10)
+	m := NewHSMSControlMessage(hdr)
+	want := "undefined"
+	if hdr[4] == 0 {
+		switch hdr[5] {
+		case 1:
+			want = "select.req"
+		case 2:
+			want = "select.rsp"
+		case 3:
+			want = "deselect.req"
+		case 4:
+			want = "deselect.rsp"
+		case 5:
+			want = "linktest.req"
+		case 6:
+			want = "linktest.rsp"
+		case 7:
+			want = "reject.req"
+		case 9:
+			want = "separate.req"
+		}
+	}
+	rt.Assert(m.Type() == want, "type:table")
+	b := m.ToBytes()
+	rt.Assert(len(b) == 14, "generic:len14")
+	rt.Assert(b[0] == 0 && b[1] == 0 && b[2] == 0 && b[3] == 10, "generic:length-field")
+	for i := 0; i < 10; i++ {
+		rt.Assert(b[4+i] == hdr[i], "generic:header-bytes")
+	}
+	rt.Reach("end")
+}
+
+// ZZ_C14_generic: the generic constructor pads a short header with zeros and cuts a long one
+// to 10 bytes (as the data-message constructor does for system bytes); it never panics.
+func ZZ_C14_generic() {
+	n := rt.Param("len")
+	hdr := rt.Bytes("hdr", n)
+	var m HSMSMessage
+	panicked := rt.Try(func() { m = NewHSMSControlMessage(hdr) })
+	rt.Assert(!panicked, "generic:no-panic")
+	b := m.ToBytes()
+	rt.Assert(len(b) == 14, "generic:len14")
+	for i := 0; i < 10; i++ {
+		if i < n {
+			rt.Assert(b[4+i] == hdr[i], "generic:copied")
+		} else {
+			rt.Assert(b[4+i] == 0, "generic:zero-padded")
+		}
+	}
+	rt.Reach("end")
+}
